@@ -109,6 +109,17 @@ example : view ⟨[0, 1]⟩ (runOps (construct true ⟨[0, 1]⟩ [[1, 2], [3, 4]
       (construct true ⟨[0, 1]⟩ [[1, 2], [3, 4]]).2 [.addCol 9, .assign 0 1 7]) = [[1, 2], [3, 4]] := by
   decide
 
+/-- a working copy made of row slices protects a nested list … -/
+theorem C19_rowSlices_list (src : Obj) (h : Heap) (hwf : ∀ a ∈ src.rows, a < h.length) (ops : List Op) :
+    view src (runOps (rowSlices false src h).1 (rowSlices false src h).2 ops) = view src h :=
+  C19_frame src h hwf ops
+
+/-- … and does not protect a numpy array (the twelfth-round change C19l): one cell assigned through the "copy" -/
+theorem C19_rowSlices_array_witness :
+    view ⟨[0, 1]⟩ (runOps (rowSlices true ⟨[0, 1]⟩ [[0, 5], [5, 0]]).1
+      (rowSlices true ⟨[0, 1]⟩ [[0, 5], [5, 0]]).2 [.assign 0 1 7]) ≠ view ⟨[0, 1]⟩ [[0, 5], [5, 0]] := by
+  decide
+
 /-! ### matrices: a function that squares into a copy leaves its argument unchanged -/
 
 def squareInPlace (m : List (List Int)) : List (List Int) := m.map fun r => r.map fun c => c * c
